@@ -1152,3 +1152,53 @@ example : ∃ c, (reach witness [.run 0]).sys.clients[0]? = some c ∧ c.op = .e
 
 end Swat4.C12
 
+/-! ### non-vacuity of the remaining additions -/
+namespace Swat4.C12
+open Swat4 Std
+
+/-- `queued_otherwise` / `never_queued_explicit`: explicit `after` before explicit `before`, and an implicit `after` -/
+example : (QOp.enqueue wp1 (some 5) (some 7)).begin = .start ∧ (QOp.enqueue wp1 none (some 7)).begin = .start ∧
+    (QOp.enqueue wp1 (some 7) (some 7)).begin = .done .unit :=
+  ⟨queued_otherwise _ _ _ (by rintro ⟨a, b, ha, hb, h⟩; cases ha; cases hb; exact absurd h (by decide)),
+   queued_otherwise _ _ _ (by rintro ⟨a, b, ha, _⟩; cases ha),
+   (never_queued_explicit _ _ _).2 ⟨7, 7, rfl, rfl, by decide⟩⟩
+
+/-- `popMany_command_progress` at the first pc of a `PopMany 1` -/
+example (st : RStore) : (QPC.popRange [] 0).prog < (qstep st 0 0 (.popMany 1) (.popRange [] 0)).2.1.prog :=
+  (popMany_command_progress st 0 0 1 (.popRange [] 0) rfl trivial).1
+
+/-- `live_step_executes`: the (unstarted) consumer of `fed` is not dead and starts at a live pc -/
+example : (fed.stepT [] (.step 3)).2.length = 1 :=
+  live_step_executes fed 3 { op := .popMany 1, pc := .start } rfl rfl rfl
+
+set_option maxRecDepth 100000 in
+/-- `ready_eq_expiry_only_at_instant` on `atExpiry`: the record was returned, and its pop batch ran at clock 100 = expiry -/
+example : (100 : Int) = 100 := by
+  have harr : ∀ c ∈ atExpiry.clients, c.started = true → c.arrival ≤ atExpiry.clock := by
+    intro c hc hs
+    simp only [atExpiry, List.mem_cons, List.not_mem_nil, or_false] at hc
+    rcases hc with rfl | rfl <;> cases hs
+  have hinit : atExpiry.Init := by
+    refine ⟨RStore.consistent_empty, fun id => by simp [atExpiry], ?_⟩
+    intro c hc
+    simp only [atExpiry, List.mem_cons, List.not_mem_nil, or_false] at hc
+    rcases hc with rfl | rfl <;> exact ⟨rfl, fun h => by cases h⟩
+  have hm : Monotone [.run 0, .run 1] := by
+    intro e he
+    simp only [List.mem_cons, List.not_mem_nil, or_false] at he
+    rcases he with rfl | rfl <;> trivial
+  have henqs : (reach atExpiry [.run 0, .run 1]).enqs = [⟨0, 0, wp1, some 100, 100, 100⟩] := by rfl
+  have hpops := ready_eq_expiry_delivered_witness.1
+  exact (ready_eq_expiry_only_at_instant atExpiry hinit harr [.run 0, .run 1] hm ⟨0, 0, wp1, some 100, 100, 100⟩
+    (by rw [henqs]; exact List.mem_singleton.2 rfl) 100 rfl rfl ⟨0, 1, wp1, some 100, some 100, 100, true⟩
+    (by rw [hpops]; exact List.mem_singleton.2 rfl) rfl rfl).symm
+
+set_option maxRecDepth 100000 in
+/-- `ready_past_expiry_only_implicit` on `pastExpiry`: the record with ready 100 ≥ expiry 50 stems from `enqueue wp1 none (some 50)` -/
+example : ∃ c, (reach pastExpiry [.run 0]).sys.clients[0]? = some c ∧ c.op = .enqueue wp1 none (some 50) := by
+  have henqs : (reach pastExpiry [.run 0]).enqs = [⟨0, 0, wp1, some 50, 100, 100⟩] := by rfl
+  exact ready_past_expiry_only_implicit pastExpiry pastExpiry_init [.run 0] ⟨0, 0, wp1, some 50, 100, 100⟩
+    (by rw [henqs]; exact List.mem_singleton.2 rfl) 50 rfl (by decide)
+
+end Swat4.C12
+
